@@ -51,3 +51,25 @@ META.update({
    text="Hundreds (quick) to thousands (thorough) of scripts per exfiltrator; every rejected number in [-2,130] plus extreme integers is used as the rejected step. Found and, after the fix: commits, guards against: poisoned id table, abort in a failing constructor, double slot initialisation.",
    note="sequential scripts (the property is about sequences); expected outcome classes are those of this kernel and glibc"),
 })
+META.update({
+ "C13": dict(engine="native forked probes + strace", category="exploration",
+   technique="runtime monitoring: failpoint count of wake attempts per delivery, byte accounting, fcntl/fd-table probes, /proc syscall probe for a blocked delivery, strace trace checked per delivery bracket and per descriptor",
+   text="15 (kind, fill) scenarios with >1000 deliveries each, rejected registrations, invalid descriptors and thousands of register/unregister cycles with number reuse; the strace oracle sees the actual write/sendto/close syscalls.",
+   note="a blocked delivery is decided from the child's stable syscall state, not from a timeout"),
+ "C14": dict(engine="native forked probes (+valgrind in thorough)", category="exploration",
+   technique="complete enumeration of (entry point x signal number x context) in forked children with the kernel, sigaction(2) and the fd table as oracles",
+   text="The finite grid (4480 cases) is run completely in both tiers; each case checks the outcome class and, after a refusal, that dispositions, registry, captured state and descriptors are as before and the entry point still works.",
+   note="classes come from this kernel/glibc and the published FORBIDDEN list"),
+ "C15": dict(engine="native forked probes", category="exploration",
+   technique="generated sequential scripts in forked children with waitpid status and marker pipe against the script's own model; complete grid of the double-Ctrl-C recipe up to length 6",
+   text="Every arm/disarm history up to length 6 in both registration orders plus hundreds to tens of thousands of random scripts over all exit statuses, signals and both conditional actions.",
+   note="sequential scripts only (the property is about sequences)"),
+ "C16": dict(engine="native forked probes", category="exploration",
+   technique="paired forked probes (kernel default vs emulation) over the complete signal-number grid in three contexts, waitpid(WUNTRACED) as oracle",
+   text="Complete in both tiers. Found the SIGIO mismatch on Linux (fixed by a fix: commit).",
+   note="oracle is this kernel; process group arranged to be non-orphaned"),
+ "C17": dict(engine="native forked probes", category="exploration",
+   technique="exhaustive synthetic record grid against an independent table + real sends through every mechanism with the raw record cross-read by libc accessors",
+   text="17408 synthetic records (every cause code the extractor distinguishes and 250 it must not) and ~285 real (mechanism, signal) probes including children, timers and SIGPIPE.",
+   note="kernel and glibc of this sandbox are the ground truth"),
+})
